@@ -173,6 +173,13 @@ class RecTask(_m.Task):
         return val
 
 
+class PlainTask(_m.Task):
+    """same objective, nothing recorded (long sweeps)"""
+
+    def objective_function(self, x):
+        return objective(self.data["desc"], x)
+
+
 def _plain(x):
     out = []
     for v in x:
